@@ -349,11 +349,16 @@ impl EventListenerFuture for RawRead<'_> {
                     // Wait for the writer to finish.
                     ready!(strategy.poll(this.listener, cx));
 
-                    // Notify the next reader waiting in list.
-                    this.lock.no_writer.notify(1);
-
                     // Check the state again.
-                    Ordering::Acquire
+                    *this.state = this.lock.state.load(Ordering::Acquire);
+
+                    // Notify the next reader waiting in list, unless a writer got in first: then
+                    // the readers are not admitted and would only wake each other in turn.
+                    if *this.state & WRITER_BIT == 0 {
+                        this.lock.no_writer.notify(1);
+                    }
+
+                    continue;
                 };
 
                 // Reload the state.
